@@ -258,3 +258,16 @@ def run(repo: Repo, rep: Report, tier: str) -> None:
     rep.check(ok8, "C05-R8", "handle_latch_write re-points the reads of its own cell at the latch output",
               "for read in _read_sources: if it is this cell: set_source(read, latch output)" if ok8 else
               "no re-pointing: `Memory m; Signal early = m.read(); m.write(1, set=..., reset=...);` leaves `early` attached to the removed hold gate, it reads 0 forever", hlw.loc())
+
+    # ---------------- R9 ---------------------------------------------------------------
+    rep.rule("C05-R9", "the latch and its multiplier read the written value and the set/reset signals from wires only, so a constant that feeds them must be placed: "
+             "SignalAnalyzer.analyze exports (record_export) IRLatchWrite.value, .set_signal and .reset_signal in the IRLatchWrite branch (exported constants always materialise, C06-R6)")
+    an9 = repo.func("SignalAnalyzer.analyze")
+    c9 = canon(an9)
+    for slot9, ex_in in (("value", "`int k = 2; m.write(k * 3, set=s, reset=r);`: the folded 6 has no combinator, the multiplier scales by a signal nobody sends and the cell reads 0"),
+                         ("set_signal", "`m.write(1, set=5 | \"signal-S\", reset=r);`: the anonymous constant is never placed, the latch is never set"),
+                         ("reset_signal", "`m.write(1, set=s, reset=5 | \"signal-R\");`: the anonymous constant is never placed, the latch is never reset")):
+        ex9 = [k for k in calls_in(an9.node, "record_export") if c9.text(k.args[0]) == f"ELEM(ir_operations).{slot9}"
+               and any(pol and g == "isinstance(ELEM(ir_operations), IRLatchWrite)" for g, pol in cguards(an9, k))]
+        rep.check(bool(ex9), "C05-R9", f"a constant used as IRLatchWrite.{slot9} is always placed", "exported in the IRLatchWrite branch" if ex9 else
+                  f"IRLatchWrite.{slot9} is only recorded as a consumer: an anonymous constant there is treated as inlinable and never placed — {ex_in}", an9.loc())
